@@ -29,6 +29,17 @@ def specFrames : Nat → List Nat → List (Nat × Nat)
     | .ok (n, bu) => (1 + bu + n, n) :: specFrames fuel (rest.drop (bu + n))
     | .error _ => []
 
+/-- total sizes of the COMPLETE frames at the head of the stream (header and all `remaining` bytes present):
+    the framing rule of the hostile harness (`rdFrames`) -/
+def completeFrames : Nat → List Nat → List Nat
+  | 0, _ => []
+  | _, [] => []
+  | fuel + 1, _ :: rest =>
+    match Mochi.Varint.specDecode rest with
+    | .ok (n, bu) =>
+      if rest.length < bu + n then [] else (1 + bu + n) :: completeFrames fuel (rest.drop (bu + n))
+    | .error _ => []
+
 /-- number of `pk` events in a rendered event list -/
 def countPk (s : String) : Nat :=
   ((s.splitOn " ;; ").filter (·.startsWith "pk ")).length
